@@ -18,6 +18,7 @@ mod p13;
 mod p14;
 mod p16;
 mod p17;
+mod p18;
 mod p20;
 mod p08;
 mod props;
@@ -139,10 +140,24 @@ fn main() {
         "C04" => p04::run(&args),
         "C02" => p02::run(&args),
         "C17" => p17::run(&args),
+        "C18" => p18::run(&args),
         "C20" => p20::run(&args),
         "C08" => p08::run08(&args),
         "C09" => p08::run09(&args),
         "C10" => p08::run10(&args),
+        "bdl-parse" => {
+            // vharness bdl-parse FILE: what hulc::bdl::build_blocks makes of a text (for replays)
+            let t = std::fs::read_to_string(std::env::args().nth(2).unwrap_or_default()).unwrap_or_default();
+            match hulc::bdl::build_blocks(&t) {
+                Ok(bs) => {
+                    for b in bs {
+                        println!("{:?} '{}' parent={:?} {:?}", b.btype, b.name, b.parent, p18::vals(&b));
+                    }
+                }
+                Err(e) => println!("ERROR: {}", e),
+            }
+            return;
+        }
         "tables" => {
             tables::dump(&args.out);
             return;
